@@ -20,7 +20,7 @@ import (
 
 var contextFreeMutants = []string{"height", "parent", "ts-early", "ts-future", "sig-wrong-slot", "sig-garbage",
 	"merkle", "tx-unbalanced", "coinbase-amount", "coinbase-missing", "coinbase-not-first", "coinbase-extra-output", "coinbase-wrong-reward"}
-var contextMutants = []string{"spend-missing", "double-spend-cross", "double-spend-inblock", "immature-coinbase", "locked-vote"}
+var contextMutants = []string{"spend-missing", "double-spend-cross", "double-spend-inblock", "immature-coinbase", "locked-vote", "double-spend-parent"}
 
 // defMutant builds a child of `parent` that violates exactly one rule. Returns "" when the
 // mutation is not applicable at this position.
@@ -128,6 +128,22 @@ func (nc *nodeCase) defMutant(parent, kind string) string {
 		}
 		o := nc.ln.outs[spentOne]
 		txInfos = append(txInfos, nc.ln.buildTx([]string{spentOne}, []outSpec{{'n', o.amount - ledgerFee - 1}}, 0))
+	case "double-spend-parent":
+		// re-spend an output that the PARENT block itself spends: when parent and mutant are attached
+		// by one reorganizeChain call, the spent mark exists only in that call's utxo view
+		var spentOne string
+		for _, ti := range nc.blockTxs[parent] {
+			for _, in := range ti.ins {
+				if o := nc.ln.outs[in]; o != nil && o.amount > ledgerFee+3 && (o.kind == 'n' || o.kind == 'v') {
+					spentOne = in
+				}
+			}
+		}
+		if spentOne == "" {
+			return ""
+		}
+		o := nc.ln.outs[spentOne]
+		txInfos = append(txInfos, nc.ln.buildTx([]string{spentOne}, []outSpec{{'n', o.amount - ledgerFee - 2}}, 0))
 	case "double-spend-inblock":
 		if len(avail) == 0 {
 			return ""
@@ -310,6 +326,36 @@ func (nc *nodeCase) oracleRules(op string) {
 			return
 		}
 	}
+	// (1b) a block that breaks a ValidateBlock rule (context-free mutant) is never stored, whether
+	// it arrived after its parent (processBlock -> saveBlock) or left the orphan pool
+	// (saveSubBlock -> saveBlock); a refused orphan does not stay in the pool once its parent is stored
+	orph, _ := n.chain.VerifNodeOrphans()
+	inPool := map[string]bool{}
+	for _, h := range orph {
+		inPool[nc.nm.name(h)] = true
+	}
+	for name := range nc.delivered {
+		kind := nc.mutants[name]
+		cf := false
+		for _, k := range contextFreeMutants {
+			if k == kind {
+				cf = true
+			}
+		}
+		if !cf {
+			continue
+		}
+		b := nc.nm.blocks[name]
+		h := b.Hash()
+		if _, err := n.store.GetBlockHeader(&h); err == nil {
+			nc.c.Fail("C13:invalid-block-stored:"+kind, fmt.Sprintf("after %s: %s (rule broken: %s) is stored", op, name, kind))
+			return
+		}
+		if _, err := n.store.GetBlockHeader(&b.PreviousBlockHash); err == nil && inPool[name] {
+			nc.c.Fail("C13:invalid-orphan-kept:"+kind, fmt.Sprintf("after %s: %s (rule broken: %s) is still in the orphan pool although its parent is stored", op, name, kind))
+			return
+		}
+	}
 	// (2) valid blocks are accepted: the best block is the fork-choice winner (height, then
 	// hash; nothing is justified in these cases) among the delivered blocks whose whole chain
 	// is valid and delivered
@@ -355,6 +401,43 @@ func genCaseRules(c *Ctx, mode string) {
 		tip = name
 	}
 	validTips := []string{tip}
+	// out-of-order delivery: a just-defined block (valid block, mutant, child of a mutant) is
+	// held back with probability 1/3 and delivered later, so that children reach the node before
+	// their parents and mutants reach saveBlock through saveSubBlock. Definition (and the
+	// reference node, which needs parents first) is not delayed; nc.deliver stays the only
+	// delivery path.
+	var held []string
+	send := func(name string) {
+		b := nc.nm.blocks[name]
+		if _, err := nc.sut.store.GetBlockHeader(&b.PreviousBlockHash); err != nil {
+			c.Count("delivered-as-orphan")
+			if nc.mutants[name] != "" {
+				c.Count("mutant-delivered-as-orphan")
+				c.Count("mutant-delivered-as-orphan:" + nc.mutants[name])
+			}
+			if pn := nc.nm.name(b.PreviousBlockHash); nc.nm.blocks[pn] != nil && !nc.delivered[pn] {
+				c.Count("child-before-parent")
+			}
+		}
+		nc.deliver(name)
+	}
+	sendOrHold := func(name string) {
+		if rng.Intn(3) == 0 {
+			held = append(held, name)
+			c.Count("held-back")
+			return
+		}
+		send(name)
+	}
+	release := func() {
+		if len(held) == 0 {
+			return
+		}
+		i := rng.Intn(len(held))
+		name := held[i]
+		held = append(held[:i], held[i+1:]...)
+		send(name)
+	}
 	steps := 5 + rng.Intn(8)
 	for i := 0; i < steps && !nc.dead; i++ {
 		parent := validTips[len(validTips)-1]
@@ -365,7 +448,7 @@ func genCaseRules(c *Ctx, mode string) {
 		case 0: // a valid block with transactions
 			name := nc.defBlock(parent, uint64(rng.Intn(2)), byte(rng.Intn(3)), nc.randomTxs(parent))
 			if name != "" {
-				nc.deliver(name)
+				sendOrHold(name)
 				validTips = append(validTips, name)
 			}
 		default:
@@ -381,21 +464,91 @@ func genCaseRules(c *Ctx, mode string) {
 				continue
 			}
 			c.Count("mutant:" + kind)
-			nc.deliver(m)
+			sendOrHold(m)
 			// sometimes a valid block on top of the mutant, sometimes a valid sibling
 			if rng.Intn(3) == 0 && nc.nm.blocks[m].Height == nc.nm.blocks[parent].Height+1 && kind != "coinbase-missing" {
 				if ch := nc.defChildOfMutant(m); ch != "" {
-					nc.deliver(ch)
+					sendOrHold(ch)
 				}
 			}
 			if rng.Intn(2) == 0 {
 				name := nc.defBlock(parent, uint64(rng.Intn(2)), byte(rng.Intn(3)), nil)
 				if name != "" {
-					nc.deliver(name)
+					sendOrHold(name)
 					validTips = append(validTips, name)
 				}
 			}
 		}
+		if rng.Intn(3) == 0 {
+			release()
+		}
+	}
+	// batch scenarios: several blocks attached by ONE reorganizeChain call, with a context mutant
+	// inside the batch and (when possible) a valid block on top of it, so that the spend rules
+	// are evaluated on the utxo view the earlier blocks of the same batch left behind
+	for k := 0; k < 2 && !nc.dead; k++ {
+		if rng.Intn(3) == 0 {
+			continue
+		}
+		tipB := validTips[len(validTips)-1]
+		parent := tipB
+		shape := "child-before-parent"
+		if rng.Intn(2) == 0 && tipB != "b0" && nc.delivered[tipB] {
+			// side branch that overtakes the best branch only when its last block arrives
+			if gp := nc.nm.name(nc.nm.blocks[tipB].PreviousBlockHash); nc.nm.blocks[gp] != nil {
+				parent = gp
+				shape = "side-branch-overtakes"
+			}
+		}
+		var txs []*txInfo
+		for try := 0; try < 6 && len(txs) == 0; try++ {
+			txs = nc.randomTxs(parent)
+		}
+		s1 := nc.defBlock(parent, uint64(rng.Intn(2)), byte(3+rng.Intn(3)), txs)
+		if s1 == "" {
+			continue
+		}
+		kinds := []string{"double-spend-parent", "double-spend-parent", "double-spend-cross", "immature-coinbase", "locked-vote", "spend-missing"}
+		kind := kinds[rng.Intn(len(kinds))]
+		m := nc.defMutant(s1, kind)
+		if m == "" {
+			kind = "immature-coinbase"
+			m = nc.defMutant(s1, kind)
+		}
+		if m == "" {
+			c.Count("batch-not-applicable")
+			held = append(held, s1)
+			validTips = append(validTips, s1)
+			continue
+		}
+		c.Count("mutant:" + kind)
+		c.Count("batch:" + shape + ":" + kind)
+		top := ""
+		if nc.nm.blocks[m].Height == nc.nm.blocks[s1].Height+1 {
+			top = nc.defChildOfMutant(m)
+		}
+		if shape == "child-before-parent" {
+			// mutant (and the valid block on top) first, the valid parent last: saveSubBlock connects
+			// them and tryReorganize attaches [s1, m, top] at once
+			send(m)
+			if top != "" {
+				send(top)
+				c.Count("batch-with-valid-top")
+			}
+			send(s1)
+		} else {
+			// in order: s1 is at most as high as the best block, the branch wins with m (or top)
+			send(s1)
+			send(m)
+			if top != "" {
+				send(top)
+				c.Count("batch-with-valid-top")
+			}
+		}
+		validTips = append(validTips, s1)
+	}
+	for len(held) > 0 && !nc.dead {
+		release()
 	}
 	c.Distinct(fmt.Sprintf("rules-%d-%d", c.Seed, c.nOps))
 	c.Count(fmt.Sprintf("E=%d", E))
